@@ -19,11 +19,27 @@
        (C03_replace_outputs_sound) are proved, so that pe_ok is the only remaining hypothesis about the pass;
      * C03_fold_node_sound, C03_identity_subst_sound, C03_if_inline_sound, C03_dce_sound: the four generic
        transformations, each for all graphs / environments;
-     * the stages implemented outside /repo (onnx_ir: Inline, DCE, lift, dedup, CSE, OutputFix, NameFix) and the
-       rewrite rules (C05/C07) are covered differentially only (harness/c03.py). *)
+     * C03_dce_pass_sound: the model of onnx_ir's RemoveUnusedNodesPass (Opt/Dce.v: last-to-first walk, uses from nested
+       graphs and graph outputs count, nested graphs of kept nodes swept, unused main-graph initializers dropped) preserves
+       the outputs, for all graphs, environments and kernels, with no side condition (NOT covered: trimming of trailing
+       omitted inputs / unused optional outputs, which the model does not describe);
+     * C03_cse_merge_sound_partial / C03_cse_checked_sound_partial: one merge of onnx_ir's CommonSubexpressionEliminationPass
+       (Opt/Cse.v) preserves the outputs when the twins have the same domain, op, inputs and ATTRIBUTE LIST, are not
+       control flow, and the SSA side conditions of merge_guard hold (checked by the model; every merge of the checked
+       iteration satisfies them).  NOT covered: a removed value that is a graph output (rename / Identity insertion), uses
+       inside nested graphs, attribute lists that are equal as dictionaries only.  The pass itself keys on Python
+       equality: C03_cse_python_key_refuted exhibits 0.0 == -0.0 (equal keys, different results for a kernel that reads
+       the sign) - the reason why optimize_ir must lift every Constant before CSE (C03_source_pipeline_shape);
+     * C03_optimize_ir_sound_partial: Sequential / PassManager(steps, early_stop) over sound stages is sound for every
+       num_iterations, stop_if_no_change, inline; instantiated with the DCE and checked-CSE models, the other stages
+       (Inline, Fold [theorem above], Rewrite [C05/C07], unused functions / opsets, lift constants, lift subgraph
+       initializers, dedup initializers, OutputFix, NameFix) are Section hypotheses, covered per pass by the
+       before/after oracle of harness/c03_passes.py;
+     * C03_source_pipeline_shape: the pass list read from the current source has the shape this argument needs. *)
 From Coq Require Import List String ZArith Bool.
 Require Import OV.Graph.Syntax OV.Graph.Sem OV.Graph.Names OV.Graph.SemProofs OV.Gen.FoldTables.
 Require Import OV.Opt.Fold OV.Opt.SemLemmas OV.Opt.FoldProofs OV.Opt.FoldNested OV.Opt.FoldTheorems.
+Require Import OV.Opt.Dce OV.Opt.DceProofs OV.Opt.Cse OV.Opt.CseProofs OV.Opt.Pipeline OV.Opt.PipelineProofs OV.Gen.OptPipeline OV.Opt.PipelineShape.
 Import ListNotations.
 Local Open Scope list_scope.
 Local Open Scope string_scope.
@@ -133,7 +149,7 @@ Theorem C03_dce_sound : forall V sem truth trip of_nat of_bool limit fuel outer 
   disjoint (defs_nodes M) (names_nodes suf) -> disjoint (defs_nodes M) outs ->
   eval_graph V sem truth trip of_nat of_bool limit (S fuel) outer (Graph gi gn (pre ++ M ++ suf) outs) args = Some v ->
   eval_graph V sem truth trip of_nat of_bool limit (S fuel) outer (Graph gi gn (pre ++ suf) outs) args = Some v.
-Proof. exact dce_sound. Qed.
+Proof. exact FoldProofs.dce_sound. Qed.
 Print Assumptions C03_dce_sound.
 
 (* evaluation is invariant under injective renaming of values (what NameFix and the renaming of replaced graph
@@ -158,3 +174,56 @@ Print Assumptions C03_optimize_preserves_partial.
 Theorem C03_oracles_satisfiable : oracles Z z_sem z_truth z_ref z_const AInt (fun _ => DT_BOOL) (fun z => Some [z]).
 Proof. exact oracles_satisfiable. Qed.
 Print Assumptions C03_oracles_satisfiable.
+
+(* ---- the onnx_ir stages of the pipeline *)
+Theorem C03_dce_pass_sound : forall V sem truth trip of_nat of_bool limit F outer g args r,
+  eval_graph V sem truth trip of_nat of_bool limit F outer g args = Some r ->
+  eval_graph V sem truth trip of_nat of_bool limit F outer (dce g) args = Some r.
+Proof. exact DceProofs.dce_sound. Qed.
+Print Assumptions C03_dce_pass_sound.
+
+Theorem C03_cse_merge_sound_partial : forall V sem truth trip of_nat of_bool limit F outer gi gn p a mid b suf go args r,
+  merge_guard go a mid b suf = true ->
+  eval_graph V sem truth trip of_nat of_bool limit (S F) outer (Graph gi gn ((p ++ a :: mid) ++ b :: suf) go) args = Some r ->
+  eval_graph V sem truth trip of_nat of_bool limit (S F) outer
+             (Graph gi gn ((p ++ a :: mid) ++ map (use_top (ren (combine (n_outs b) (n_outs a)))) suf) go) args = Some r.
+Proof. exact merge_sound. Qed.
+Print Assumptions C03_cse_merge_sound_partial.
+
+Theorem C03_cse_checked_sound_partial : forall V sem truth trip of_nat of_bool limit g g',
+  cse_checked g = Some g' -> grefines V sem truth trip of_nat of_bool limit g g'.
+Proof. exact cse_checked_sound. Qed.
+Print Assumptions C03_cse_checked_sound_partial.
+
+Theorem C03_cse_python_key_refuted :
+  key_eqb (Node "" "K" [] ["u"] [("alpha", AFloat 0)] []) (Node "" "K" [] ["v"] [("alpha", AFloat 2147483648)] []) = true /\
+  eval_graph Z k_sem (fun _ => None) (fun _ => None) Z.of_nat (fun b => if b then 1%Z else 0%Z) 0 2 [] zero_sign_graph [] = Some [0%Z; 2147483648%Z] /\
+  eval_graph Z k_sem (fun _ => None) (fun _ => None) Z.of_nat (fun b => if b then 1%Z else 0%Z) 0 2 [] (cse zero_sign_graph) [] = Some [0%Z; 0%Z] /\
+  cse_checked zero_sign_graph = None.
+Proof. exact cse_python_key_refuted. Qed.
+Print Assumptions C03_cse_python_key_refuted.
+
+Theorem C03_optimize_ir_sound_partial : forall V sem truth trip of_nat of_bool limit
+    inline_pass fold_pass rewrite_pass unused_functions unused_opsets lift_constants lift_subgraph_initializers dedup_initializers output_fix name_fix,
+  mstage_sound V sem truth trip of_nat of_bool limit inline_pass -> mstage_sound V sem truth trip of_nat of_bool limit fold_pass ->
+  mstage_sound V sem truth trip of_nat of_bool limit rewrite_pass -> mstage_sound V sem truth trip of_nat of_bool limit unused_functions ->
+  mstage_sound V sem truth trip of_nat of_bool limit unused_opsets -> mstage_sound V sem truth trip of_nat of_bool limit lift_constants ->
+  mstage_sound V sem truth trip of_nat of_bool limit lift_subgraph_initializers -> mstage_sound V sem truth trip of_nat of_bool limit dedup_initializers ->
+  mstage_sound V sem truth trip of_nat of_bool limit output_fix -> mstage_sound V sem truth trip of_nat of_bool limit name_fix ->
+  forall f1 f2 f3 inline num_iterations stop_if_no_change,
+    mstage_sound V sem truth trip of_nat of_bool limit
+      (optimize_ir_stages inline_pass fold_pass rewrite_pass unused_functions unused_opsets lift_constants lift_subgraph_initializers
+                          dedup_initializers output_fix name_fix f1 f2 f3 inline num_iterations stop_if_no_change).
+Proof. exact optimize_ir_sound. Qed.
+Print Assumptions C03_optimize_ir_sound_partial.
+
+Theorem C03_pass_manager_sound : forall V sem truth trip of_nat of_bool limit steps early_stop body,
+  Forall (mstage_sound V sem truth trip of_nat of_bool limit) body ->
+  mstage_sound V sem truth trip of_nat of_bool limit (run_manager steps early_stop body).
+Proof. exact run_manager_sound. Qed.
+Print Assumptions C03_pass_manager_sound.
+
+Theorem C03_source_pipeline_shape :
+  pipeline_ok src_prefix_guard src_prefix src_loop src_steps src_early_stop src_post = true.
+Proof. exact source_pipeline_shape_ok. Qed.
+Print Assumptions C03_source_pipeline_shape.
